@@ -69,6 +69,35 @@ func scanGlobalInits(P *Program) {
 						switch v := vs.Values[i].(type) {
 						case *ast.CallExpr:
 							fn := qual(v.Fun)
+							if id, ok := v.Fun.(*ast.Ident); ok && id.Name == "append" {
+								// append(append(make([]error, 0, n), a...), b...): the concatenation of global slices
+								var parts []string
+								okAll := true
+								var walk func(c *ast.CallExpr)
+								walk = func(c *ast.CallExpr) {
+									if len(c.Args) != 2 || !c.Ellipsis.IsValid() {
+										okAll = false
+										return
+									}
+									switch first := c.Args[0].(type) {
+									case *ast.CallExpr:
+										fid, isId := first.Fun.(*ast.Ident)
+										if isId && fid.Name == "append" {
+											walk(first)
+										} else if !(isId && fid.Name == "make") {
+											okAll = false
+										}
+									default:
+										okAll = false
+									}
+									parts = append(parts, qual(c.Args[1]))
+								}
+								walk(v)
+								if okAll {
+									globalInits[name] = &globalInit{Kind: "appendslices", Parts: parts}
+								}
+								continue
+							}
 							switch fn {
 							case "errors.New":
 								globalInits[name] = &globalInit{Kind: "new"}
@@ -206,6 +235,23 @@ func (x *Exec) globalSliceFacts(qname string, v Value, st *State) {
 		et := v.T.Underlying().(*types.Slice).Elem()
 		arr := elemArr(x.entryStateOr(st), et, Flatten(et)[0], v.C[0])
 		for i, e := range gi.Elems {
+			x.sentinelFacts(e)
+			x.assumeTrue(Eq(Select(arr, Add(v.C[1], Num(int64(i)))), globalTerm(e, "", SInt)))
+		}
+	case "appendslices":
+		var elems []string
+		for _, p := range gi.Parts {
+			pi := globalInits[p]
+			if pi == nil || pi.Kind != "errslice" {
+				return
+			}
+			elems = append(elems, pi.Elems...)
+		}
+		n := int64(len(elems))
+		x.assumeTrue(And(Eq(v.C[2], Num(n)), Gt(v.C[0], Num(0))))
+		et := v.T.Underlying().(*types.Slice).Elem()
+		arr := elemArr(x.entryStateOr(st), et, Flatten(et)[0], v.C[0])
+		for i, e := range elems {
 			x.sentinelFacts(e)
 			x.assumeTrue(Eq(Select(arr, Add(v.C[1], Num(int64(i)))), globalTerm(e, "", SInt)))
 		}
